@@ -207,12 +207,8 @@ partial def parse : List String → Option (Dyn × List String)
       let S ← castTo sq u.m u.m
       let Kin ← castTo kin u.n u.n
       -- capacitance matrix exactly as the (fixed) code computes it: K⁻¹ + sign • V S⁻¹ U
-      let dKi := denoteB (inv Kin)
-      let dV := denoteB V
-      let dSi := denoteB (inv S)
-      let dU := denoteB U
-      let VSi := boxForce (dV.M * dSi.M)
-      let Cm := boxForce (dKi.M + (s.val : Q) • (VSi.M * dU.M))
+      let Cm := addB (denoteB (inv Kin)) (smulB (s.val : Q)
+        (mulB (mulB (denoteB V) (denoteB (inv S))) (denoteB U)))
       let Cx := invMat Cm
       let C : MExpr Q u.n u.n := lu false Cm.M Cx.M
       some (⟨u.m, u.m, lowRank k s U V S Kin C⟩, rest)
